@@ -389,10 +389,57 @@ class LayoutGen:
         """functions passed instead of lambdas (`def` branch), and lambdas written inside one-line functions"""
         r = self.r
         k = r.choice(["one", "one", "two", "doc", "two_stmts", "decorated", "decorated_lambda", "static", "contains",
-                      "contains", "default_lambda", "no_return"])
+                      "contains", "default_lambda", "no_return", "lead_stmt", "lead_stmt", "lead_stmt", "lead_noop"])
         a = self.argname()
         op = r.choice(OPS)
         ret = "%s.v + %%d" % a if not (op == "Where" and self.real) else "%s.v != %%d" % a
+        if k == "lead_noop":
+            # statements that do nothing before the single return: docstring, `...`, a bare constant (all dropped
+            # by rewrite_func_as_lambda)
+            lead = r.choice([["..."], ['"doc"', "..."], ["...", '"lambda e: ("'], ["1"]])
+            m = self.marker("def", op, [a], True, True, "def_noop_lead")
+            return ["%s%d%sdef g_%d(%s):" % (TAG_A, m, TAG_B, m, a)] + ["    " + x for x in lead] + \
+                   ["    return %s" % (ret % m), "r = ds.%s(g_%d)" % (op, m)]
+        if k == "lead_stmt":
+            # a statement that is NOT a no-op before the return: the def must be refused (ValueError) or recorded as a
+            # lambda that behaves like it - never as its bare return expression when that differs
+            self.next += 1
+            m = self.next                      # marker taken first so that the helper names carry it
+            kn = "k_%d" % m
+            scaled = (ret % m).replace("%s.v" % a, "(%s.v * %s)" % (a, kn))
+            plain = ret % m
+            form = r.choice(["ann_value", "ann_value", "ann_value_global", "ann_value_global", "ann_bare", "assign",
+                             "assign_global", "aug", "call_expr", "pass", "nested_def", "if_return", "global_stmt",
+                             "tuple_assign", "assert", "walrus_expr", "del_stmt", "import_stmt", "with_stmt", "for_stmt",
+                             "try_stmt"])
+            pre: List[str] = []
+            if form in ("ann_value_global", "assign_global", "global_stmt"):
+                pre = ["%s = 10" % kn]         # a same-named variable of the enclosing scope with another value
+            cmp_tail = " != 7" if op == "Where" and self.real else ""
+            body = {
+                "ann_value": ["%s: float = 2" % kn, "return " + scaled],
+                "ann_value_global": ["%s: float = 2" % kn, "return " + scaled],
+                "ann_bare": ["%s: int" % kn, "return " + plain],
+                "assign": ["%s = 2" % kn, "return " + scaled],
+                "assign_global": ["%s = 2" % kn, "return " + scaled],
+                "aug": ["%s = 1" % kn, "%s += 1" % kn, "return " + scaled],
+                "call_expr": ["str(%s)" % a, "return " + plain],
+                "pass": ["pass", "return " + plain],
+                "nested_def": ["def %s(): return 2" % kn, "return " + scaled.replace(kn, kn + "()")],
+                "if_return": ["if %s is None: return 0" % a, "return " + plain],
+                "global_stmt": ["global %s" % kn, "return " + scaled],
+                "tuple_assign": ["%s, _u = 2, 3" % kn, "return " + scaled],
+                "assert": ["assert %s is not None" % a, "return " + plain],
+                "walrus_expr": ["(%s := 2)" % kn, "return " + scaled],
+                "del_stmt": ["%s = 2" % kn, "_v = (%s)" % scaled, "del %s" % kn, "return _v"],
+                "import_stmt": ["import math", "return " + plain],
+                "with_stmt": ["with ctx():", "    return " + plain],
+                "for_stmt": ["for %s in (2,):" % kn, "    return " + scaled],
+                "try_stmt": ["try:", "    return " + plain, "finally:", "    pass"],
+            }[form]
+            self.cases[m] = Case(m, "def", op, [a], True, False, "def_lead_" + form)
+            return pre + ["%s%d%sdef g_%d(%s):" % (TAG_A, m, TAG_B, m, a)] + ["    " + x for x in body] + \
+                   ["r = ds.%s(g_%d)" % (op, m)]
         if k == "one":
             m = self.marker("def", op, [a], True, True, "def_one_line")
             return ["%s%d%sdef g_%d(%s): return %s" % (TAG_A, m, TAG_B, m, a, ret % m), "r = ds.%s(g_%d)" % (op, m)]
